@@ -187,13 +187,14 @@ func (in *Interp) step(st *State, fr *Frame, ins ssa.Instruction) {
 			return
 		}
 	case *ssa.Go:
-		panic(unsupported("go statement"))
+		in.doGo(st, fr, x)
+		return
 	case *ssa.Select:
-		panic(unsupported("select"))
+		in.set(fr, x, in.doSelect(st, fr, x))
 	case *ssa.Send:
-		panic(unsupported("channel send"))
+		in.chanSend(st, fr, x, in.get(st, fr, x.Chan), in.get(st, fr, x.X))
 	case *ssa.MakeChan:
-		panic(unsupported("make chan"))
+		in.set(fr, x, in.makeChan(st, fr, x))
 	default:
 		panic(unsupported(fmt.Sprintf("instruction %T", ins)))
 	}
@@ -679,7 +680,14 @@ func (in *Interp) binop(st *State, fr *Frame, x *ssa.BinOp) Value {
 	switch {
 	case bt.Info()&types.IsString != 0:
 		as, bs := a.(StrV), b.(StrV)
-		if as.Atom != nil || bs.Atom != nil || as.Fmt != nil || bs.Fmt != nil || as.Bytes != nil || bs.Bytes != nil {
+		if (as.Parts != nil || bs.Parts != nil || as.Fmt != nil || bs.Fmt != nil) && x.Op == token.ADD {
+			ap, ok1 := partsOf(as)
+			bp, ok2 := partsOf(bs)
+			if ok1 && ok2 {
+				return normParts(append(append([]StrPart(nil), ap...), bp...))
+			}
+		}
+		if as.Atom != nil || bs.Atom != nil || as.Fmt != nil || bs.Fmt != nil || as.Bytes != nil || bs.Bytes != nil || as.Parts != nil || bs.Parts != nil {
 			panic(unsupported("string op " + x.Op.String() + " on non-concrete strings"))
 		}
 		switch x.Op {
@@ -796,7 +804,12 @@ func (in *Interp) unop(st *State, fr *Frame, x *ssa.UnOp) Value {
 		// ^x = -x-1 (two's complement), then wrap
 		return in.wrap(st, Sub(Neg(t), IntC(1)), bt)
 	case token.ARROW:
-		panic(unsupported("channel receive"))
+		elem := x.X.Type().Underlying().(*types.Chan).Elem()
+		rv, ok := in.chanRecv(st, fr, x, v, elem)
+		if x.CommaOk {
+			return TupleV{rv, BoolC(ok)}
+		}
+		return rv
 	}
 	panic(unsupported("unop " + x.Op.String()))
 }
@@ -987,7 +1000,7 @@ func (in *Interp) convert(st *State, fr *Frame, v Value, from, to types.Type) Va
 				n := IntC(int64(len(e)))
 				return SliceV{Obj: id, Off: IntC(0), Len: n, Cap: n}
 			}
-			if eb != nil && eb.Kind() == types.Int32 && s.Atom == nil && s.Fmt == nil && s.Bytes == nil {
+			if eb != nil && eb.Kind() == types.Int32 && s.Atom == nil && s.Fmt == nil && s.Bytes == nil && s.Parts == nil {
 				rs := []rune(s.S)
 				e := make([]Value, len(rs))
 				for i := range rs {
@@ -1138,6 +1151,21 @@ func (in *Interp) sliceOp(st *State, fr *Frame, x *ssa.Slice) Value {
 	case StrV:
 		if b.Atom != nil || b.Fmt != nil {
 			panic(unsupported("slicing opaque string"))
+		}
+		if b.Parts != nil {
+			// only s[k:] with k inside the leading literal is supported
+			if hi != nil || lo == nil {
+				panic(unsupported("slicing a structured string other than s[k:]"))
+			}
+			k, ok := lo.ConstInt64()
+			if !ok {
+				panic(unsupported("slicing a structured string at a symbolic offset"))
+			}
+			np, ok := dropPrefixParts(b.Parts, int(k))
+			if !ok {
+				panic(unsupported("slicing a structured string inside a symbolic number"))
+			}
+			return normParts(np)
 		}
 		bs := strBytes(b)
 		n := int64(len(bs))
@@ -1290,7 +1318,7 @@ func (in *Interp) rangeInit(st *State, fr *Frame, x *ssa.Range) Value {
 		}
 		return IterV{Obj: st.alloc(it)}
 	case StrV:
-		if c.Atom != nil || c.Fmt != nil || c.Bytes != nil {
+		if c.Atom != nil || c.Fmt != nil || c.Bytes != nil || c.Parts != nil {
 			panic(unsupported("range over non-concrete string"))
 		}
 		return IterV{Obj: st.alloc(&IterState{Str: c.S, IsStr: true})}
@@ -1353,8 +1381,8 @@ func (in *Interp) builtin(st *State, fr *Frame, b *ssa.Builtin, args []Value) Va
 		case SliceV:
 			return a.Len
 		case StrV:
-			if a.Atom != nil || a.Fmt != nil {
-				panic(unsupported("len of opaque string"))
+			if a.Atom != nil || a.Fmt != nil || a.Parts != nil {
+				panic(unsupported("len of opaque/structured string"))
 			}
 			if a.Bytes != nil {
 				return IntC(int64(len(a.Bytes)))
@@ -1371,6 +1399,11 @@ func (in *Interp) builtin(st *State, fr *Frame, b *ssa.Builtin, args []Value) Va
 			return IntC(int64(len(in.load(st, a).(*ArrayV).E)))
 		case PoisonV:
 			panic(unsupported("len of opaque value: " + a.Why))
+		case ChanV:
+			if o, _ := in.chanObj(st, a, "len"); o != nil {
+				return IntC(int64(len(o.Buf)))
+			}
+			return IntC(0)
 		}
 	case "cap":
 		switch a := args[0].(type) {
@@ -1379,6 +1412,9 @@ func (in *Interp) builtin(st *State, fr *Frame, b *ssa.Builtin, args []Value) Va
 		case *ArrayV:
 			return IntC(int64(len(a.E)))
 		}
+	case "close":
+		in.chanClose(st, args[0])
+		return TupleV{}
 	case "append":
 		return in.appendOp(st, fr, args)
 	case "copy":
